@@ -202,13 +202,18 @@ def PosOk (n g t : Expr) : Prop :=
     (en.guarded = true → IsStrConst en.label s) ∧
     (BlockVars.isComposite s = true → en.guarded = true)
 
+/-- `p` holds position by position of three lists of equal length. -/
+inductive All3 {α β γ : Type} (p : α → β → γ → Prop) : List α → List β → List γ → Prop
+  | nil : All3 p [] [] []
+  | cons {a b c as bs cs} : p a b c → All3 p as bs cs → All3 p (a :: as) (b :: bs) (c :: cs)
+
 def Lengths (c : OpCall) : Prop :=
   ∃ gs ts, getterTuple c = some gs ∧ setterTargets c = some ts ∧
     c.names.length = gs.length ∧ gs.length = ts.length
 
 def Positions (c : OpCall) : Prop :=
   ∃ gs ts, getterTuple c = some gs ∧ setterTargets c = some ts ∧
-    List.Forall₂ (fun n gt => PosOk n gt.1 gt.2) c.names (gs.zip ts)
+    All3 PosOk c.names gs ts
 
 /-- The variables of the state, by position (what the `symbol_names` constants say). -/
 def nameStrs (c : OpCall) : List String :=
@@ -254,10 +259,10 @@ def posOkB (n g t : Expr) : Bool :=
     (!en.guarded || strConstB en.label == some s) && (!BlockVars.isComposite s || en.guarded)
   | _, _ => false
 
-def forall₂B {α β} (p : α → β → Bool) : List α → List β → Bool
-  | [], [] => true
-  | a :: as, b :: bs => p a b && forall₂B p as bs
-  | _, _ => false
+def all3B {α β γ : Type} (p : α → β → γ → Bool) : List α → List β → List γ → Bool
+  | [], [], [] => true
+  | a :: as, b :: bs, c :: cs => p a b c && all3B p as bs cs
+  | _, _, _ => false
 
 def lengthsB (c : OpCall) : Bool :=
   match getterTuple c, setterTargets c with
@@ -266,7 +271,7 @@ def lengthsB (c : OpCall) : Bool :=
 
 def positionsB (c : OpCall) : Bool :=
   match getterTuple c, setterTargets c with
-  | some gs, some ts => forall₂B (fun n gt => posOkB n gt.1 gt.2) c.names (gs.zip ts)
+  | some gs, some ts => all3B posOkB c.names gs ts
   | _, _ => false
 
 def nodupB : List QN → Bool
